@@ -198,7 +198,19 @@ pub fn build_sweep(tier: Tier) -> Vec<IoRun> {
             push(&w, scratch(), Pre::Longer(17), PlanSpec { meta_err: Some(e), ..Default::default() }, None, &mut runs);
         }
         // pre-states, alone and under one hard fault
-        for pre in [Pre::Shorter, Pre::Longer(1), Pre::Longer(4096), Pre::Identical, Pre::Garbage] {
+        for pre in [
+            Pre::Shorter,
+            Pre::Longer(1),
+            Pre::Longer(4096),
+            Pre::Identical,
+            Pre::Garbage,
+            Pre::Other(0),
+            Pre::Other(100_000),
+            Pre::SymlinkToFile(0),
+            Pre::SymlinkToFile(5000),
+            Pre::DanglingSymlink,
+            Pre::HardLinkTwin,
+        ] {
             push(&w, scratch(), pre.clone(), PlanSpec::default(), None, &mut runs);
             push(
                 &w,
@@ -226,6 +238,8 @@ pub fn build_sweep(tier: Tier) -> Vec<IoRun> {
             Target::Nul,
             Target::Empty,
             Target::DevFull,
+            Target::SymlinkToDir,
+            Target::SymlinkLoop,
         ] {
             push(&w, t, Pre::Absent, PlanSpec::default(), None, &mut runs);
         }
